@@ -6,8 +6,9 @@
 (* it is used by the server (PlaneBuilder::build, Routes::find_route).     *)
 (*                                                                         *)
 (* Strings are abstracted to SYMBOLS.  A raw segment symbol stands for a   *)
-(* spelling; SymDec gives the class of its percent-decoded text, so two    *)
-(* symbols with the same SymDec are two spellings of the same text         *)
+(* spelling; SymOct gives the class of its percent-decoded octets, SymDec   *)
+(* that of the (lossily decoded) text, so two symbols with the same SymOct *)
+(* are two spellings of the same octets                                    *)
 (* ("A" / "%41", "%C3%A9" / "%c3%a9" / raw "e-acute").  The check module   *)
 (* concretises the symbols from pools that respect exactly these           *)
 (* relations, so everything the code can distinguish at the level of       *)
@@ -46,24 +47,42 @@ View == <<routes, built>>
 ----------------------------------------------------------------------------
 (* Symbol tables.                                                          *)
 
-\* percent-decoded class of every raw segment symbol ("e" is the empty segment)
+\* Percent-decoding gives OCTETS; only where a text is needed (the value bound to a parameter) are the
+\* octets turned into a string, lossily: every octet (sequence) that is not valid UTF-8 becomes U+FFFD.
+\* The two are different relations as soon as escapes of invalid UTF-8 occur:
+\*   "i1" / "i1l"  two spellings (%E9 / %e9) of the same invalid octet(s): Latin-1 escape, %FF, a truncated
+\*                 multi-byte sequence (%C3 alone), an overlong form (%C0%AF)
+\*   "i2"          other invalid octet(s) (%E8, %FE ...)
+\*   "rf"          the valid UTF-8 escape of U+FFFD itself (%EF%BF%BD)
+\* all four decode lossily to the same text ("r") but to three different octet strings.
+\* SymOct: class of the decoded octets of every raw segment symbol ("e" is the empty segment) - what
+\* literal segments are compared by, in unapply_parts AND in are_ambiguous (PercentDecode iterators).
+SymOct == [ a |-> "a", ae |-> "a", b |-> "b",
+            ue |-> "u", ul |-> "u", ur |-> "u",
+            v |-> "v", we |-> "w", wl |-> "w", tr |-> "t",
+            i1 |-> "i1", i1l |-> "i1", i2 |-> "i2", rf |-> "r", e |-> "" ]
+\* SymDec: class of the lossily decoded text - what a parameter is bound to (decode_utf8_lossy).
 SymDec == [ a |-> "a", ae |-> "a", b |-> "b",
             ue |-> "u", ul |-> "u", ur |-> "u",
-            v |-> "v", we |-> "w", wl |-> "w", tr |-> "t", e |-> "" ]
+            v |-> "v", we |-> "w", wl |-> "w", tr |-> "t",
+            i1 |-> "r", i1l |-> "r", i2 |-> "r", rf |-> "r", e |-> "" ]
 \* "ur" spells its text with characters that may not occur in a RouteUri path (non-ASCII, space,
 \* '?', '#', a lone '%' ...): the pattern parser takes it, a URI cannot contain it.
 \* "tr" is a value text that URL_ENCODE leaves as it is ('~' is "unreserved"); since f104ab0 '~' is a
 \* RouteUri path character, so it is legal (before, the URI was cut at it: finding F8e, repaired).
 UriLegalSym(s) == s # "ur"
 \* what utf8_percent_encode(_, URL_ENCODE) produces for a decoded text: the canonical legal spelling
-EncOf == [ a |-> "a", b |-> "b", u |-> "ue", v |-> "v", w |-> "we", t |-> "tr" ]
+EncOf == [ a |-> "a", b |-> "b", u |-> "ue", v |-> "v", w |-> "we", t |-> "tr", r |-> "rf" ]
 \* percent-decoded class of a raw parameter name ("xe" is a second spelling of "x")
 NameDec == [ x |-> "x", y |-> "y", xe |-> "x" ]
 \* "sr" is a scheme the pattern parser takes but RouteUri does not ('_', ' ' ...)
 SchemeLegal(s) == s # "sr"
 
 ASSUME \A d \in DOMAIN EncOf : SymDec[EncOf[d]] = d /\ UriLegalSym(EncOf[d])
-ASSUME LitSyms \subseteq {"a", "ae", "b", "ue", "ul", "ur"} /\ ParSyms \subseteq DOMAIN NameDec
+ASSUME LitSyms \subseteq {"a", "ae", "b", "ue", "ul", "ur", "i1", "i1l", "i2", "rf"} /\ ParSyms \subseteq DOMAIN NameDec
+\* equal octets give equal text, never the other way round
+ASSUME \A x, y \in DOMAIN SymOct : SymOct[x] = SymOct[y] => SymDec[x] = SymDec[y]
+ASSUME DOMAIN SymOct = DOMAIN SymDec /\ \A x \in DOMAIN SymOct : (SymOct[x] = "") = (SymDec[x] = "")
 
 LegalForm(s) == IF UriLegalSym(s) THEN s ELSE EncOf[SymDec[s]]
 
@@ -112,7 +131,7 @@ Match(p, u) ==
     /\ p.abs = u.abs
     /\ N(p) = Len(u.segs)
     /\ \A i \in 1..N(p) :
-          IF Lit(p.segs[i]) THEN SymDec[p.segs[i].s] = SymDec[u.segs[i]]
+          IF Lit(p.segs[i]) THEN SymOct[p.segs[i].s] = SymOct[u.segs[i]]
                             ELSE SymDec[u.segs[i]] # ""
 
 \* P: the bindings, by the names apply() and parameters() use (the raw names).
@@ -141,13 +160,15 @@ RoundTripOK(p, m) == LET u == ApplyM(p, m) IN
 
 ----------------------------------------------------------------------------
 (* are_ambiguous (M): same number of segments and no position where both   *)
-(* are literals with different percent-DECODED text (since 7530ccc; before, *)
-(* the raw text was compared: finding F8a, repaired).  Scheme and absolute  *)
-(* flag are not looked at.                                                  *)
+(* are literals with different percent-decoded OCTETS (since 7530ccc;       *)
+(* before, the raw text was compared: finding F8a, repaired) - the same     *)
+(* comparison as in unapply_parts, on octets, not on lossily decoded text:  *)
+(* %E9 and %E8 are different literals.  Scheme and absolute flag are not    *)
+(* looked at.                                                               *)
 
 AmbM(p, q) == /\ N(p) = N(q)
               /\ \A i \in 1..N(p) :
-                    (Lit(p.segs[i]) /\ Lit(q.segs[i])) => SymDec[p.segs[i].s] = SymDec[q.segs[i].s]
+                    (Lit(p.segs[i]) /\ Lit(q.segs[i])) => SymOct[p.segs[i].s] = SymOct[q.segs[i].s]
 
 \* P: two patterns overlap iff some URI is matched by both.
 UriSpace(n) == [sc : USchemes, abs : BOOLEAN, segs : [1..n -> USyms]]
@@ -156,7 +177,7 @@ OverlapDef(p, q) == \E u \in UriSpace(N(p)) : UriLegal(u) /\ Match(p, u) /\ Matc
 OverlapS(p, q) == /\ N(p) = N(q) /\ N(p) >= 1
                   /\ p.abs = q.abs
                   /\ \A i \in 1..N(p) :
-                        (Lit(p.segs[i]) /\ Lit(q.segs[i])) => SymDec[p.segs[i].s] = SymDec[q.segs[i].s]
+                        (Lit(p.segs[i]) /\ Lit(q.segs[i])) => SymOct[p.segs[i].s] = SymOct[q.segs[i].s]
 
 \* the URI both match when they overlap
 Witness(p, q) == [sc |-> IF p.sc = q.sc THEN p.sc ELSE "", abs |-> p.abs,
@@ -175,7 +196,7 @@ Canon(p, val) == [sc |-> p.sc, abs |-> p.abs,
 
 F8a(p, q) == N(p) = N(q) /\ \E i \in 1..N(p) :
                 /\ Lit(p.segs[i]) /\ Lit(q.segs[i])
-                /\ p.segs[i].s # q.segs[i].s /\ SymDec[p.segs[i].s] = SymDec[q.segs[i].s]
+                /\ p.segs[i].s # q.segs[i].s /\ SymOct[p.segs[i].s] = SymOct[q.segs[i].s]
 F8b(p) == \E n \in Names(p) : NameDec[n] # n
 F8c(p) == \E i \in 1..N(p) : Lit(p.segs[i]) /\ ~UriLegalSym(p.segs[i].s)
 F8d(p) == N(p) = 0
@@ -239,7 +260,7 @@ TypeOK == /\ built \in {"no", "accepted", "rejected"}
           /\ \A i \in 1..Len(routes) : routes[i] \in AllPatterns
 
 \* value assignments used for apply: by parameter position
-ValRows == {<<"v", "v", "v">>, <<"v", "w", "u">>, <<"w", "a", "v">>, <<"u", "v", "w">>, <<"t", "v", "t">>}
+ValRows == {<<"v", "v", "v">>, <<"v", "w", "u">>, <<"w", "a", "v">>, <<"u", "v", "w">>, <<"t", "v", "t">>, <<"r", "v", "r">>}
 RowMap(p, row) == [n \in Names(p) |-> row[((PosOf(p, n) - 1) % 3) + 1]]
 CompleteMaps(p) == {RowMap(p, row) : row \in ValRows}
 IncompleteMaps(p) == {[n \in Names(p) \ {x} |-> "v"] : x \in Names(p)}
